@@ -38,7 +38,7 @@ ASSUMPTIONS = [
     'least one of 5 seeds (12 seeds when length<6)',
     'shuffle_repeat_batch_federated_data: only per-batch shape, id validity, row integrity and seed reproducibility are '
     'judged on a finite prefix; it is never run on a federated dataset without examples (does not terminate)',
-    'RepeatableIterator is only used with complete, non-interleaved passes, as its docstring requires',
+    'RepeatableIterator passes are never interleaved with each other (docstring); one pass may be consumed in pieces',
 ]
 SHARDS = {'quick': 4, 'thorough': 14}
 SHARD_TIMEOUT = {'quick': 600, 'thorough': 2400}
@@ -514,6 +514,42 @@ def repeat_point(ctx, fd_mod, n, kind):
     if len(p) < 3:
       ctx.case_done(None, sample=wit, klass=['repeat:' + kind])
       return
+
+  # one pass consumed in pieces (next() a few items, then a for loop; a for loop with break, then another for loop):
+  # `for` calls iter() on the object again in the middle of a pass, which must NOT restart the pass
+  def go_piecewise():
+    it = fd_mod.RepeatableIterator(factory())
+    passes = []
+    for pno in range(4):
+      got = []
+      k = (pno + n) % (n + 1) if n else 0
+      try:
+        for _ in range(k):
+          got.append(next(it))
+        ended = False
+      except StopIteration:
+        ended = True
+      if not ended:
+        if pno % 2:
+          for x in it:                      # for ... break, then a second for over the same object
+            got.append(x)
+            if len(got) >= min(n, k + 1):
+              break
+          else:
+            ended = True
+        if not ended:
+          for j, x in enumerate(it):
+            got.append(x)
+            if j > n + 2:
+              break
+      passes.append(got)
+    return passes
+
+  if n >= 1:
+    r = ctx.call('RepeatableIterator', go_piecewise, witness=wit)
+    if r.ok:
+      ctx.check(all(p_ == items for p_ in r.value), 'repeat-iter/piecewise-pass-differs',
+                'a pass consumed in pieces (next() / for-break / for) is not exactly the first pass', {**wit, 'passes': r.value})
 
   # the docstring's usage: consecutive map() objects over the same iterator
   def go_map():
